@@ -1,8 +1,54 @@
-(* C14 — Repair converges and is idempotent over any history (interim: Verify is the identity on
-   states; the history theorems of Proofs/HistoryFacts.v are added when they land). *)
-From Gopar Require Import Model.Base Model.CRC Model.GoPath Model.FS Model.Par2 Model.Par1 Model.History Proofs.Par2Facts.
+(* C14 — Repair converges and is idempotent over any history of damage and repair.
+   Model: Model/History.v - operations HSet / HDelete (any external modification: damage, restoration,
+   a recovery file arriving or vanishing), HVerify, HRepair dbl, folded over a directory state, for PAR2
+   (hrun2) and PAR1 (hrun1).  "Matches the archive" = has the length and both hashes the archive - as
+   loaded at that moment - records for the path (= the original content under the local MD5 premise).
+   NOT proved here: that a successful Repair leaves Verify clean and a further Repair idle; the check
+   decides it on the closed state graph (Proofs/Par2Clean.v adds the decoder-level statement when it lands). *)
+From Gopar Require Import Model.Base Model.CRC Model.GoPath Model.FS Model.Par2 Model.Par1 Model.History
+     Proofs.Par2Facts Proofs.Par1Facts Proofs.HistoryFacts.
 Open Scope N_scope.
 
+(* Verify never changes the state; a history of Verifies is the identity *)
 Theorem C14_verify_identity : forall md5 ix fs, hstep2 md5 ix fs HVerify = fs.
-Proof. intros. unfold hstep2. rewrite verify_pure. reflexivity. Qed.
+Proof. exact hstep2_verify_id. Qed.
 Print Assumptions C14_verify_identity.
+
+Theorem C14_verify_only : forall md5 ix h fs, Forall (fun o => o = HVerify) h -> hrun2 md5 ix h fs = fs.
+Proof. exact history2_verify_only. Qed.
+Print Assumptions C14_verify_only.
+
+(* a Repair, failed or not, never increases the damage: every path keeps its previous content or
+   receives content that matches the archive *)
+Theorem C14_repair_monotone : forall md5 ix dbl fs q,
+  fs_lookup (hstep2 md5 ix fs (HRepair dbl)) q = fs_lookup fs q \/
+  exists d, fs_lookup (hstep2 md5 ix fs (HRepair dbl)) q = Some d /\ matches2 md5 ix fs q d.
+Proof. exact hstep2_repair_monotone. Qed.
+Print Assumptions C14_repair_monotone.
+
+(* over ANY finite history: a path that no external operation names either still has its initial
+   content or holds content that matched the archive when some Repair of the history wrote it *)
+Theorem C14_history : forall md5 ix h fs q,
+  (forall o, In o h -> match o with HSet p _ => p <> q | HDelete p => p <> q | _ => True end) ->
+  fs_lookup (hrun2 md5 ix h fs) q = fs_lookup fs q \/
+  exists d fs', fs_lookup (hrun2 md5 ix h fs) q = Some d /\ matches2 md5 ix fs' q d.
+Proof. exact history2_monotone. Qed.
+Print Assumptions C14_history.
+
+(* the same for PAR1 *)
+Theorem C14_par1_verify_identity : forall md5 ix fs, hstep1 md5 ix fs HVerify = fs.
+Proof. exact hstep1_verify_id. Qed.
+Print Assumptions C14_par1_verify_identity.
+
+Theorem C14_par1_repair_monotone : forall md5 ix dbl fs q,
+  fs_lookup (hstep1 md5 ix fs (HRepair dbl)) q = fs_lookup fs q \/
+  exists d, fs_lookup (hstep1 md5 ix fs (HRepair dbl)) q = Some d /\ matches1 md5 ix fs q d.
+Proof. exact hstep1_repair_monotone. Qed.
+Print Assumptions C14_par1_repair_monotone.
+
+Theorem C14_par1_history : forall md5 ix h fs q,
+  (forall o, In o h -> match o with HSet p _ => p <> q | HDelete p => p <> q | _ => True end) ->
+  fs_lookup (hrun1 md5 ix h fs) q = fs_lookup fs q \/
+  exists d fs', fs_lookup (hrun1 md5 ix h fs) q = Some d /\ matches1 md5 ix fs' q d.
+Proof. exact history1_monotone. Qed.
+Print Assumptions C14_par1_history.
